@@ -777,6 +777,23 @@ func (vm *vm) popTryFrame() {
 
 func (vm *vm) restoreStacks(iterLen, refLen uint32) (ex *Exception) {
 	// Restore other stacks
+	defer func() {
+		// also when an iterator's return() is aborted by an uncatchable (the panic leaves this function)
+		if int(iterLen) < len(vm.iterStack) {
+			tail := vm.iterStack[iterLen:]
+			for i := range tail {
+				tail[i] = iterStackItem{}
+			}
+			vm.iterStack = vm.iterStack[:iterLen]
+		}
+		if int(refLen) < len(vm.refStack) {
+			tail := vm.refStack[refLen:]
+			for i := range tail {
+				tail[i] = nil
+			}
+			vm.refStack = vm.refStack[:refLen]
+		}
+	}()
 	iterTail := vm.iterStack[iterLen:]
 	for i := len(iterTail) - 1; i >= 0; i-- {
 		if iter := iterTail[i].iter; iter != nil {
